@@ -452,3 +452,72 @@ Theorem C04_checked_run_cyclic_stops : forall F bld,
   fst (run_c F bld cyclic_prog 100 fresh_state) = OAbort AUnmodelled.
 Proof. exact checked_run_cyclic_stops. Qed.
 Print Assumptions C04_checked_run_cyclic_stops.
+
+(* ------------------------------------------------------------------ the structural checks on compiled programs *)
+From Cao Require Import C15Link RefScope C04StructWitness C04StructProofs.
+
+(* STATUS of "compiled programs never fail the structural checks" (chk_return, chk_foreach, chk_reg):
+   - a program that compiles but is NOT well-scoped can fail chk_return and chk_foreach (the two theorems below;
+     both programs are outside the run-time domain of C04, which speaks of well-scoped programs);
+   - chk_return is stronger than the VM needs in a top-level run: with one call frame Return yields an error value
+     (C04_return_one_frame_is_error); it is needed for the contract of nested runs only;
+   - NOT PROVED: that a program with RefScope.well_scoped = true never fails chk_return / chk_foreach / chk_reg
+     (static half: every Return of a well-scoped program lies in a function or closure body, every upvalue index is
+     below the closure's upvalue count; dynamic half: an invariant of the run relating the value stack to the
+     compiler's locals).  No counterexample among well-scoped programs is known. *)
+
+(* (a) main = [Return 1] compiles (the compiler accepts a Return card at main's own level; well_scoped rejects it).
+   Vm.run reports the error value BadReturn - the crate does the same (instr_return: Err(BadReturn "Failed to find
+   return address"), no panic) - and the checked VM stops there: chk_return is too strong at top level. *)
+Theorem C04_return_in_main_is_bad_return :
+  exists B, compile return_main_module default_options = COk B /\
+    in_c04_domain return_main_module default_options B = true /\
+    well_scoped return_main_module = false /\
+    forall F bld,
+      (exists t, fst (run F bld 100 (to_vm B) fresh_state) = OErr EBadReturn t) /\
+      fst (run_c F bld (to_vm B) 100 fresh_state) = OAbort AUnmodelled.
+Proof. exact return_in_main_is_bad_return. Qed.
+Print Assumptions C04_return_in_main_is_bad_return.
+
+(* Return with at most one call frame, any program: an error value, never an abort, never a next instruction *)
+Theorem C04_return_one_frame_is_error : forall F bld P reenter start,
+  code_ok P start -> reenter_ok P reenter start (fun _ => False) ->
+  forall ip0 s, step_pre3 F bld P start ip0 s ->
+    opcode_at P ip0 = 22%N -> length (st_calls s) <= 1 ->
+    exists e ip' s', step F bld P reenter ip0 s = SErr e ip' s'.
+Proof. exact return_one_frame_is_error. Qed.
+Print Assumptions C04_return_one_frame_is_error.
+
+(* the hypotheses are satisfiable: the Return of main = [Return 1] is reached with one frame (the run above ends in
+   BadReturn), and step_pre3's structural part holds in the entry state (C04_step_pre_entry_state) *)
+Example C04_return_one_frame_example : forall F bld,
+  exists B, compile return_main_module default_options = COk B /\
+    exists t, fst (run F bld 100 (to_vm B) fresh_state) = OErr EBadReturn t.
+Proof.
+  intros F bld. destruct return_in_main_is_bad_return as (B & E & _ & _ & H). exists B. split; [exact E|]. apply (H F bld).
+Qed.
+
+(* (b) chk_foreach NEEDS well-scopedness: main = [x = 0; for _ in [1,2,3] { S;S;S;S;S; -5; {} }] with
+   S = Add(SetVar x -5, SetVar x -5) compiles; SetVar leaves no value, so every S pops two stack slots it did not
+   push: the five hidden locals of the loop are eaten, -5 lands in the slot of the counter and the new table in the
+   slot of the item.  Debug build: debug_assert!(0 <= i) fails (OAbort APanic; observed on the crate: panic
+   "for_each overflow", vm/instr_execution.rs:397); Release build: Ok.  The program is not well-scoped (a card
+   without value in an operand slot), i.e. outside C04's run-time domain. *)
+Theorem C04_foreach_counter_needs_well_scoped :
+  exists B, compile (foreach_neg_module 5) default_options = COk B /\
+    in_c04_domain (foreach_neg_module 5) default_options B = true /\
+    well_scoped (foreach_neg_module 5) = false /\
+    forall F,
+      fst (run F Debug 3000 (to_vm B) fresh_state) = OAbort APanic /\
+      fst (run_c F Debug (to_vm B) 3000 fresh_state) = OAbort AUnmodelled /\
+      fst (run F Release 3000 (to_vm B) fresh_state) = OOk /\
+      fst (run_c F Release (to_vm B) 3000 fresh_state) = OOk.
+Proof. exact foreach_counter_needs_well_scoped. Qed.
+Print Assumptions C04_foreach_counter_needs_well_scoped.
+
+(* with 4 or 6 copies of S the slot of the item holds no table when ForEach reads it: the error AssertionError *)
+Theorem C04_foreach_counter_neighbours :
+  forall F bld m B, In m [4; 6] -> compile (foreach_neg_module m) default_options = COk B ->
+    exists t, fst (run F bld 3000 (to_vm B) fresh_state) = OErr EAssertionError t.
+Proof. intros F bld. exact (foreach_counter_neighbours F bld). Qed.
+Print Assumptions C04_foreach_counter_neighbours.
